@@ -54,3 +54,9 @@ VARIANTS = [
          old="            study._storage.set_trial_system_attr(trial._trial_id, rung_key, value)\n",
          new="            study._storage.set_trial_system_attr(trial_id=trial._trial_id, key=rung_key, value=value)\n"),
 ]
+
+VARIANTS += [
+    dict(id="c09-sort-by-start-time", prop="C09", file=TPE, expect="R09.1",
+         old="        sorted_trials = sorted(trials, key=lambda trial: cast(float, trial.value))\n",
+         new="        sorted_trials = sorted(trials, key=lambda trial: (cast(float, trial.value), trial.datetime_start))\n"),
+]
